@@ -192,6 +192,14 @@ def runOp (f : List String) : String :=
     let (out, res) := runStream (lineFn (parseCfg cfg)) (unhexBytes h) (num 'r') wf
     let st := match res with | .ok => "ok" | .tooLong => "toolong" | .readErr => "readerr" | .writeErr => "writeerr"
     st ++ " " ++ hexOfBytes out
+  | _ :: "files" :: cfg :: _kinds :: hs =>
+    -- several files, one after the other, under one configuration: the model has no state, so each is the stream loop on its own
+    -- content (a `.gz` file holds the same text)
+    let f := lineFn (parseCfg cfg)
+    " ".intercalate (hs.map fun h =>
+      let (out, res) := runStream f (unhexBytes h) none none
+      let st := match res with | .ok => "ok" | .tooLong => "toolong" | _ => "err"
+      st ++ ":" ++ hexOfBytes out)
   | [_, "encrt", k, p] =>
     let key := unhexBytes k
     if key.length = 64 then
